@@ -311,6 +311,11 @@ class Ev:
             name = self.fresh(hint)
             self.lets.append((name, "(mkM2 %s)" % " ".join(flat)))
             return [[A("(a%d%d %s)" % (i, j, name)) for j in range(2)] for i in range(2)]
+        if (r, c) in ((2, 1), (1, 2)):
+            name = self.fresh(hint)
+            self.lets.append((name, "(%s, %s)" % (flat[0], flat[1])))
+            vs = [A("(fst %s)" % name), A("(snd %s)" % name)]
+            return [[v] for v in vs] if c == 1 else [vs]
         if r * c > 9:
             name = self.fresh(hint)
             self.lets.append((name, self.big_fun(e)))
@@ -362,6 +367,12 @@ class Ev:
         elif dims == (2, 2):
             self.free[cn] = (key, "mat2 T", sig)
             e = [[A("(a%d%d %s)" % (i, j, cn)) for j in range(2)] for i in range(2)]
+        elif dims in ((2, 1), (1, 2)):
+            self.free[cn] = (key, "(T * T)%type", sig)
+            vs = [A("(fst %s)" % cn), A("(snd %s)" % cn)]
+            e = [[v] for v in vs] if c == 1 else [vs]
+        elif r * c <= 9:
+            raise Unsupported("free %dx%d matrix %s" % (r, c, name))
         else:
             self.free[cn] = (key, "(nat -> nat -> T)", sig)
             e = [[A("(%s %s %s)" % (cn, nat(i), nat(j))) for j in range(c)] for i in range(r)]
@@ -929,11 +940,11 @@ class Ev:
             raise Unsupported("big matrix expression")
         aux = "%s_big%d" % (self.prefix, len(self.aux) + 1)
         body = "".join("let %s := %s in\n  " % (nm, t) for nm, t in inner_lets) + self.big_fun(v.entries())
-        self.aux.append("(* %d x %d expression over the big matrices %s *)\nDefinition %s %s : nat -> nat -> T :=\n  %s.\n" % (
+        self.aux.append("(* %d x %d expression over the big matrices %s *)\nDefinition %s {T : Type} (N : NumOps T) %s : nat -> nat -> T :=\n  %s.\n" % (
             v.r, v.c, ", ".join(self.hint(node) for node, _, _ in distinct), aux,
             " ".join("(%s : nat -> nat -> T)" % x for _, _, x in distinct), body))
         name = self.fresh(hint)
-        self.lets.append((name, "(%s %s)" % (aux, " ".join(names))))
+        self.lets.append((name, "(%s N %s)" % (aux, " ".join(names))))
         return fresh_mat([[A("(%s %s %s)" % (name, nat(i), nat(j))) for j in range(v.c)] for i in range(v.r)])
 
     # ---- comma initialiser
@@ -1157,7 +1168,7 @@ class Ev:
             vals = [self.bind_scalar("arg", self.scalar(self.ev(a))) for a in args]
             for field, acc in summ["members"]:
                 name = self.fresh("%s_%s" % (hint or short, field))
-                self.lets.append((name, "(%s%s %s)" % (acc, "" if summ.get("same_section") else " N", " ".join(vals))))
+                self.lets.append((name, "(%s N %s)" % (acc, " ".join(vals))))
                 obj.fields[field] = fresh_mat([[A("(m%d%d %s)" % (i, j, name)) for j in range(3)] for i in range(3)])
             return
         cands = [d for d in self.index.defs if d.get("kind") == "CXXConstructorDecl" and d.get("name") == short
@@ -1386,6 +1397,8 @@ def coq_value(v):
             return "(mkV3 %s)" % " ".join(flat), "vec3 T"
         if (v.r, v.c) == (2, 2):
             return "(mkM2 %s)" % " ".join(flat), "mat2 T"
+        if (v.r, v.c) in ((2, 1), (1, 2)):
+            return "(%s, %s)" % (flat[0], flat[1]), "(T * T)%type"
         if v.r * v.c > 9:
             m0 = re.match(r"^\((\w+) 0%nat 0%nat\)$", e[0][0])
             if m0 and all(e[i][j] == "(%s %s %s)" % (m0.group(1), nat(i), nat(j)) for i in range(v.r) for j in range(v.c)):
@@ -1414,7 +1427,7 @@ def emit(ev, cname, outputs, comment):
     text = "".join(a + "\n" for a in ev.aux)
     text += "(* %s\n   inputs: %s\n   outputs: %s *)\n" % (comment, ", ".join("%s = %s" % (nm, info[2]) for nm, info in frees),
                                                            ", ".join(lbl for lbl, _ in outputs))
-    text += "Definition %s %s : %s :=\n%s  %s.\n" % (cname, params, rty, body, res)
+    text += "Definition %s {T : Type} (N : NumOps T) %s : %s :=\n%s  %s.\n" % (cname, params, rty, body, res)
     text += "Definition %s_inputs : list string := %s%%string.\n" % (cname, sig)
     text += "Definition %s_outputs : list string := [%s]%%string.\n" % (cname, "; ".join('"%s"' % lbl for lbl, _ in outputs))
     # projections
@@ -1422,7 +1435,7 @@ def emit(ev, cname, outputs, comment):
         pat = "(%s)" % ", ".join("o_%d" % i for i in range(len(outputs)))
         args = " ".join(nm for nm, _ in frees)
         for i, (lbl, _) in enumerate(outputs):
-            text += "Definition %s_%s %s : %s :=\n  let '%s := %s %s in o_%d.\n" % (
+            text += "Definition %s_%s {T : Type} (N : NumOps T) %s : %s :=\n  let '%s := %s N %s in o_%d.\n" % (
                 cname, re.sub(r"\W", "_", lbl).strip("_"), params, types[i], pat, cname, args, i)
     return text, [nm for nm, _ in frees]
 
@@ -1432,9 +1445,6 @@ From Coq Require Import ZArith List String.
 From Romea Require Import Num AnglesModel.
 %s
 Import ListNotations.
-
-Section Src.
-Context {T : Type} (N : NumOps T).
 
 """
 
